@@ -40,6 +40,7 @@ def run(ctx):
     group(ctx, facts)
     wire_agg(ctx, facts)
     pipeline(ctx, facts)
+    collective_inner(ctx, facts)
     sat_merge(ctx, facts)
     partial_nonzero(ctx, facts)
     chunk_cover(ctx, facts)
@@ -290,6 +291,29 @@ def pipeline(ctx, facts):
             ctx.ob("COLLECTIVE", f"ok-return-skips-{name}@{guard_sig(b, dom, bb)}", False,
                    f"hybrid_protocol can return Ok without taking part in the cross-shard stage `{name}`: a shard that returns early (here under `{guard_sig(b, dom, bb)}`) leaves the other shards of the helper waiting for its messages",
                    site_of(b, bb))
+
+
+def collective_inner(ctx, facts):
+    """The same rule one level down: breakdown_reveal_aggregation runs a sharded shuffle of its own."""
+    ctx.rule("COLLECTIVE (breakdown reveal): no Ok return of breakdown_reveal_aggregation is reachable without taking part in its sharded shuffle")
+    b = malsec.async_body(facts, "protocol::hybrid::breakdown_reveal::breakdown_reveal_aggregation")
+    if b is None:
+        return ctx.missing("COLLECTIVE", "breakdown_reveal_aggregation")
+    ctx.count(bodies=1)
+    dom = b.dominators()
+    cs = flow.find_calls(b, re.compile(r"ShardedShuffle::sharded_shuffle$|sharded_shuffle$"))
+    if len(cs) != 1:
+        return ctx.missing("COLLECTIVE", "sharded_shuffle call in breakdown_reveal_aggregation")
+    st = flow.settled(b, cs[0][0])
+    if st is None or st["q"] is None:
+        return ctx.ob("COLLECTIVE", "breakdown-reveal:shuffle-awaited", False, "the sharded shuffle of the attribution outputs is not awaited with `?`", site_of(b, cs[0][0]))
+    early = [bb for bb in malsec.ok_blocks(b) if not flow.dominates(dom, st["q"][1], bb)]
+    if not early:
+        ctx.ob("COLLECTIVE", "breakdown-reveal:every-ok-return-after-shuffle", True, "all shards take part in the shuffle of the attribution outputs", site_of(b, cs[0][0]))
+    for bb in early:
+        ctx.ob("COLLECTIVE", f"breakdown-reveal:ok-return-skips-shuffle@{guard_sig(b, dom, bb)}", False,
+               f"breakdown_reveal_aggregation can return Ok without taking part in the sharded shuffle of the attribution outputs: a shard on which no match key occurred exactly twice (here under `{guard_sig(b, dom, bb)}`) returns at once and the shards that do have attributed pairs wait for its messages",
+               site_of(b, bb))
 
 
 def guard_sig(b, dom, bb):
